@@ -136,6 +136,28 @@ func (r R) Piece(q byte) (ir.Piece, int) {
 		}
 		return ir.Piece{Src: string(o), Units: []uint16{uint16(o)}}, fam
 	case PSimpleEsc:
+		if r.Intn(6, "bsrun") == 0 {
+			// one to three escaped backslashes directly in front of a quote
+			// character: the other quote raw, or the literal's own quote escaped
+			n := 1 + r.Intn(3, "nbs")
+			p := ir.Piece{}
+			for i := 0; i < n; i++ {
+				p.Src += "\\\\"
+				p.Units = append(p.Units, '\\')
+			}
+			o := byte('"')
+			if q == '"' {
+				o = '\''
+			}
+			if r.Bool("ownquote") {
+				p.Src += "\\" + string(q)
+				p.Units = append(p.Units, uint16(q))
+			} else {
+				p.Src += string(o)
+				p.Units = append(p.Units, uint16(o))
+			}
+			return p, fam
+		}
 		return EscPiece(simpleEscOrder[r.Intn(len(simpleEscOrder), "esc")]), fam
 	case PIdentityEsc:
 		return EscPiece(identityEscChars[r.Intn(len(identityEscChars), "idesc")]), fam
